@@ -14,6 +14,9 @@ from ..astq import AstDB
 from ..irdb import Module
 from ..engines import e9_safety as e9
 from ..engines import e3_tables as e3
+from ..engines import e2_state as e2
+from ..extract import AnalysisBroken
+from .c12 import RECT
 from ..extract import VERIF
 
 LEVEL = "other"
@@ -29,6 +32,8 @@ def run(chk):
     chk.rule("ALLOC.noexcept", "IR call-graph: operator new is unreachable from every library destructor and noexcept function (libstdc++ bodies "
              "followed; only container.resize(0) is cut); no try/catch; no new(std::nothrow)")
     chk.rule("INT64.product", "no multiplication whose result type is a signed 64-bit integer")
+    chk.rule("STALE.pointers", "RectClip64 / RectClipLines64: results_, edges_[8], start_locs_ (raw pointers into op_container_) are empty "
+             "again at every back edge of the path loop and at every exit - no pointer into a destroyed deque survives")
     chk.rule("T.comparator", "LocMinSorter, IntersectListSort, HorzSegSorter are strict weak orders")
     for cfg in cfgs:
         db = AstDB(cfg)
@@ -37,6 +42,15 @@ def run(chk):
         if "noexc" not in cfg.split("+"):
             e9.rule_alloc_noexcept(Module(cfg), db, chk, cfg)
         e3.comparators(db, chk, cfg)
+        # dangling OutPt2 pointers: the lists that point into op_container_ are emptied whenever it is reset
+        eng = e2.E2(db, chk, cfg, ["RectClip64", "RectClipLines64"])
+        for q in ("RectClip64::Execute", "RectClipLines64::Execute"):
+            f = db.one(q)
+            e2.rule_clean(eng, chk, cfg, [f], RECT, [{}], rule="STALE.pointers")
+            ls = e2.find_loops(f, lambda l: l.get("kind") == "CXXForRangeStmt" and "paths" in e2.loop_header_text(l))
+            if len(ls) != 1:
+                raise AnalysisBroken("path loop of %s not found" % q)
+            e2.rule_loop(eng, chk, cfg, f, ls[0], RECT, [{}], "path loop of " + q, rule="STALE.pointers")
     n = len(cfgs)
     chk.floor("GUARD.nonempty", 55 * n)
     chk.floor("ALLOC.noexcept", 15)
